@@ -133,6 +133,9 @@ class Model:
                         tree = ast.parse(src, filename=path)
                     except SyntaxError as e:  # the tree does not "compile": analysis error
                         raise AnalysisError(f"cannot parse {rel}: {e}")
+                    from sa.canon import canonicalise
+
+                    tree = canonicalise(tree)  # one spelling for `if not c: A else: B` and `x = E; return x`
                     set_parents(tree)
                     self.modules[name] = ModuleInfo(name, path, rel, src, tree, is_pkg)
 
